@@ -202,10 +202,78 @@ def _c11():
 HAND += _c11()
 
 PROPERTY_NOTES = {
+    "C01": {
+        "bounds": "per packet kind and configuration listed in closing_set.json: every field symbolic in its wire domain (full integer ranges, every declared enum variant, every subset of defined flag bits, nibbles 0..15); text of CONCRETE length per configuration (3 / full width <= 24 / 0) with symbolic ASCII content; element counts concrete 0/1/2 with symbolic elements; time fields from a 5-value boundary menu; hash sets empty (MAL/IPB also one element where it closes); SMALL one sub-type per configuration (timed sub-types: C15); Ver.version fixed",
+        "outside": "Codec::encode over a symbolic payload (does not close: the writer is entered through <Packet as BinWrite>::write_options on a slice cursor; Codec::encode is checked per kind on Default payloads in C03 and for every length by the kernel); a separate re-encode query (implied by field-wise equality of all fields + determinism of the writer); multi-codepage text; other text lengths and counts; kinds/configurations that do not close (DESIGN.md section 8)",
+        "assumptions": ["stubs: alloc::fmt::format -> empty String; insim_core::string::codepages::to_lossy_string/to_lossy_bytes -> ASCII model (input assumed ASCII); std::hash::RandomState::new -> fixed keys",
+                        "harness idioms: the frame length and the element-count / sub-type bytes are ASSERTED equal to their expected values and then re-stored as constants (DESIGN.md 3.2a)"],
+    },
+    "C02": {
+        "bounds": "as C01; oracle = spec/insim_v9.py (independent transcription of InSim.txt v9 and the relay description); plus concrete tables: every enum variant's number, every flag constant's bit, every PLC/ALC car bit",
+        "outside": "PSE_ pit-work bit numbers, time units where the document is prose only, IP byte order, PlayerHandicapFlags constants (type not nameable); as C01",
+        "assumptions": ["the oracle is the author's transcription from memory of the specification documents (no copy in the sandbox)", "stubs and idioms as C01"],
+    },
+    "C03": {
+        "bounds": "Mode::encode_length: every usize length x both modes; per kind: writer output behind the size byte is a multiple of 4 in range with the right type and count bytes (counts 0..2, fixed text lengths); Codec::encode(Default payload, symbolic request id) in both modes; arbitrary body bytes -> reader -> writer never aborts (kinds without text)",
+        "outside": "counts above 2, other text lengths; decode-then-encode for text kinds (decoded text has a symbolic length); Codec::encode over symbolic payloads of larger kinds",
+        "assumptions": ["'refused loudly' = a panic located inside Mode::encode_length (allowed_fail); stubs as C01"],
+    },
+    "C04": {
+        "bounds": "Mode::decode_length: every first byte x buffer length 0..=1100 x mode; per kind: <K as BinRead>::read_options over arbitrary bytes of the nominal body size (count byte concrete 0..2): no panic, no read beyond the frame; Codec::decode on [size, 200, any, any] + 4 symbolic tail bytes: error, frame removed exactly, tail intact",
+        "outside": "Codec::decode on frames of a known type with symbolic bytes / symbolic buffer length (no result in 25 min, 14 GB): the success path's frame removal and decode-side type dispatch are not decided",
+        "assumptions": ["stubs as C01"],
+    },
+    "C06": {
+        "bounds": "blocking Framed::write twice; transport accepts any k in 1..=len per call (<= 12 calls); frames of 4 and 8 symbolic bytes",
+        "outside": "tokio connection, UDP/WebSocket adaptors; transports that return errors / WouldBlock; the real encoder's Bytes (Codec::encode is replaced by a frame model in this harness; C03 owns the encoder)",
+        "assumptions": ["stub: insim::net::Codec::encode -> frame model (static storage, symbolic content, concrete lengths)", "kani flag -Z restrict-vtable (virtual calls resolve only to implementations of the called trait method)"],
+    },
+    "C07": {
+        "bounds": "Packet::maybe_pong / Tiny::is_keepalive: request id any u8 x every TinyType variant; every other packet kind (Default payload)",
+        "outside": "the connection's use of the function (reply written once, before returning the keep-alive, nothing else written): Framed::read does not close",
+        "assumptions": ["stubs: alloc::fmt::format, std::hash::RandomState::new"],
+    },
+    "C09": {
+        "bounds": "Packet::maybe_verify_version: all 256 InSim versions; every other packet kind; insim::VERSION == 9",
+        "outside": "application of the gate inside Framed::read and Builder::verify_version wiring",
+        "assumptions": ["stubs: alloc::fmt::format, std::hash::RandomState::new"],
+    },
+    "C11": {
+        "bounds": "text LENGTH concrete per harness (0, 1, N-1, N, N+1, 2N around widths 6/8/16/24/32/64/96/128 and align-4 maxima 64/128/240), content symbolic printable ASCII; fixed-width reader over every [u8; N] image for N in 6/8/16/24/32/64",
+        "outside": "lengths not listed; non-ASCII text (encoded length != character count)",
+        "assumptions": ["stubs: to_lossy_string / to_lossy_bytes ASCII model, alloc::fmt::format"],
+    },
     "C13": {
+        "exhaustive": True,
         "bounds": "all 2^32 four-byte identifiers (one symbolic [u8;4]); all built-in variants by symbolic index",
         "outside": "nothing of the wire mapping; Plc/Mal set membership rules are not part of this check",
         "assumptions": ["stub: alloc::fmt::format -> empty String (error-message text only)"],
+    },
+    "C14": {
+        "exhaustive": True,
+        "bounds": "all 2^48 six-byte values; all Track variants by symbolic index (list generated from the enum declaration)",
+        "outside": "complete_name / Display text",
+        "assumptions": ["stub: alloc::fmt::format"],
+    },
+    "C15": {
+        "bounds": "all 256 race-length bytes; Laps(n)/Hours(h) for every usize; every u16/u32 wire value of the four duration instantiations (through IS_CPP, IS_HLV, IS_PSF, IS_CSC); every Duration up to Duration::MAX on the encode side; SMALL timed sub-types: every u32 value / every Duration",
+        "outside": "nothing within the conversions; which packets use which instantiation is C01/C02",
+        "assumptions": ["stub: alloc::fmt::format"],
+    },
+    "C16": {
+        "bounds": "three symbolic GameVersions: major any f32 except NaN and -0.0, minor any char, patch any Option<usize>",
+        "outside": "FromStr / Display (dec2flt, float formatting: no result in 20 min even for '0.7' + one symbolic letter)",
+        "assumptions": ["NaN and -0.0 excluded: the parser accepts digits and dots only (argument from reading from_str, not a solver result)"],
+    },
+    "C17": {
+        "bounds": "PTH: node count 0/1/2 concrete, every other byte symbolic; wrong magic; cuts at 16/36/55 of 56 bytes; counts -1, i32::MIN, i32::MAX, 10^6 on a header-only image. SMX: writer only, 1 object (1 point, 1 triangle), 1 checkpoint, numeric fields symbolic",
+        "outside": "SMX reader (does not close); symbolic count field / truncation point; files; allocation size",
+        "assumptions": ["stubs: alloc::fmt::format, to_lossy_bytes ASCII model"],
+    },
+    "C18": {
+        "bounds": "builder program: optional isi_flags(any); 4 setter calls (setter any of 10, value any) with optional isi_flags(any) after the 2nd; prefix/interval/request id present or absent; two transport choices in sequence (none|udp(Some)|tcp|relay then tcp|udp(Some)|udp(None)|relay); name/password set, overridden, cleared; handshake over a recording transport in both modes (configuration concrete apart from the request id)",
+        "outside": "connect_blocking / connect_async (sockets); Codec::encode over a symbolic ISI inside the handshake",
+        "assumptions": ["stubs: alloc::fmt::format, to_lossy_bytes ASCII model"],
     },
 }
 
